@@ -374,6 +374,11 @@ package rapid
 
 //@ func (*shutdownContext).shutdownAgents
 //@   requires execCtx != nil && s != nil
+// C08 ("no ... subscription ... from an earlier generation influences later ones"): the table of SHUTDOWN-subscribed extensions
+// whose exit is awaited is made anew by every teardown, whatever became of the previous one (its exit wait may have timed out)
+// (the table belongs to the monitor: every later Lock may find it changed by the events watcher, so the fact is stated for the
+// state after the first critical section, which is the one that makes it)
+//@   loop range execCtx.registrationService.GetExternalAgents(): invariant [the-awaited-table-is-made-anew-before-any-extension-is-looked-at] delta(AnyMutexLock) >= 1 && (delta(AnyMutexLock) == 1 ==> s.agentsAwaitingExit != nil && fresh(s.agentsAwaitingExit) && len(s.agentsAwaitingExit) == 0)
 //@   ensures [shutdown-event-installed-first] delta(RendererSet) == 1 && delta(ExternalAgentsListed) == 1 && first(RendererSet) < first(ExternalAgentsListed) && typeis(lastarg(RendererSet, 1), *rendering.ShutdownRenderer) && lastarg(RendererSet, 1).(*rendering.ShutdownRenderer).AgentEvent.ShutdownReason == reason && lastarg(RendererSet, 1).(*rendering.ShutdownRenderer).AgentEvent.AgentEvent.EventType == "SHUTDOWN"
 //@   ensures [one-goroutine-per-launched-extension] delta(ExitedLookup) == len(lastret(ExternalAgentsListed)) && delta(SpawnGraceful) + delta(SpawnKill) == delta(ExitedLookupFound) && delta(SpawnGraceful) == delta(SubscribedToShutdown) && delta(SpawnKill) == delta(NotSubscribedToShutdown) && delta(ShutdownSubscriptionAsked) == delta(ExitedLookupFound) && delta(SubscribedToShutdown) + delta(NotSubscribedToShutdown) == delta(ExitedLookupFound)
 //@   ensures [no-direct-kill] delta(KillAny) == 0 && delta(Terminate) == 0 && delta(ReleaseExt) == 0
